@@ -12,6 +12,10 @@ for f in "$ROOT"/replays/regress/*.json; do
   /venv/bin/python "$ROOT/run_check.py" --replay "$f" --quiet >/dev/null; b=$?
   want=0; case "$(basename "$f")" in F11-*|F17-*) want=1;; esac    # open known findings: still reproduce on /repo
   echo "$(basename "$f"): original tree rc=$a (want 1 or 3)  /repo rc=$b (want $want)"
-  { [ $a -eq 1 ] || [ $a -eq 3 ]; } && [ $b -eq $want ] || RC=1
+  case "$(basename "$f")" in
+    F7b-*) # a regression of repair 7b6da18, absent from the original tree: it must show on neither tree
+      [ $a -eq 0 ] && [ $b -eq 0 ] || RC=1;;
+    *) { [ $a -eq 1 ] || [ $a -eq 3 ]; } && [ $b -eq $want ] || RC=1;;
+  esac
 done
 exit $RC
